@@ -178,6 +178,39 @@ PRIVATE_AS_SCALAR_OK = {
 }
 
 
+CACHE_PURE_OK = {
+    ('photutils.segmentation.catalog.SourceCatalog.fluxfrac_radius', '_fluxfrac_optimizer_args', 'args[3] *= fluxfrac'):
+        '`args = fluxfrac_args[:-1]` is a slice copy of a python list and element 3 is a float (the alias model treats slices as views)',
+}
+
+
+def cache_pure_rules(repo, res):
+    """CACHE-PURE: __getitem__ slices the values already cached in __dict__, so
+    cat[i].p == cat.p[i] 'before or after' needs every cached value to stay what the
+    getter returned: no method may modify a cached (lazy)property value in place."""
+    from .C10 import get_alias
+    d, _ft = get_alias(repo)
+    for cn in CATS + FINDER_CATS:
+        c = repo.get_class(cn)
+        lazies = {f.name for f in c.all_functions() if f.is_property and not f.is_setter}
+        for f in c.all_functions():
+            sm = d.summary(f)
+            bad = [(fld, s_) for fld, sites in sm.mutf.items() if fld in lazies for s_ in sites.values()
+                   if (s_.finfo.fullname, fld, norm_stmt_text(s_.stmt)) not in CACHE_PURE_OK]
+            res.oblige('CACHE-PURE', f'{f.qualname} modifies no cached property value in place', not bad,
+                       nontrivial=any(fld in lazies for fld in sm.store) or bool(sm.mutf) or _reads_lazy(f, lazies),
+                       sample=None)
+            for fld, s_ in bad:
+                res.add(Finding('CACHE-PURE', s_.finfo.fullname, f'{fld}: {norm_stmt_text(s_.stmt)}', s_.loc,
+                                f'{f.qualname} modifies the cached value of `{c.name}.{fld}` in place ({s_.describe()}): '
+                                f'the property (and every slice taken from the cache) then reports something else than its getter returned',
+                                {'class': cn, 'property': fld}))
+
+
+def _reads_lazy(f, lazies):
+    return any(isinstance(n, ast.Attribute) and n.attr in lazies and self_attr(n) for n in ast.walk(f.node))
+
+
 def id_lookup_rules(repo, res):
     """get_label(s)/get_id(s) look the requested ids up in the current id array (not by position)."""
     for cn, meth, idattr in ((CATS[0], 'get_labels', 'label'), (CATS[1], 'get_ids', 'id')):
@@ -228,6 +261,10 @@ def run(repo, tier):
                 res.add(Finding('SHARE', gi.fullname, f'{a} shared by reference; {norm_stmt_text(st0)}', gi.loc,
                                 f'{c.name}: `{a}` is shared by reference with the sliced catalog and modified in place by {f0.qualname}', {}))
     id_lookup_rules(repo, res)
+    cache_pure_rules(repo, res)
+    from .common import run_loops
+    run_loops(repo, res, {'photutils.segmentation.catalog', 'photutils.aperture.stats'}, rules=('LP1',))
+    res.floor('CACHE-PURE', 150)
     res.floor('GETITEM', 50)
     res.floor('SCALAR-SHAPE', 18)
     res.floor('DECOR', 50)
